@@ -14,6 +14,8 @@ def is_concrete(v, depth=0):
         return True
     if is_z3(v) or isinstance(v, (SBytes, SStr, Choice, Obj, OpaqueVal, Opq, Fmt, ExcObj)):
         return False
+    if type(v).__module__.startswith('pyvc.'):
+        return False
     if depth > 6:
         return False
     if isinstance(v, (list, tuple, set, frozenset)):
@@ -153,6 +155,11 @@ def binop(ctx, op, a, b):
         return int_binop(ctx, op, a, b)
     if op == 'Add':
         if (is_str(a) or isinstance(a, Choice)) and (is_str(b) or isinstance(b, Choice)):
+            # a guarded union inside a concatenation is resolved by case split so that ropes stay canonical
+            if isinstance(a, Choice):
+                a = resolve_choice(ctx, a)
+            if isinstance(b, Choice):
+                b = resolve_choice(ctx, b)
             return mkstr([a, b])
         if isinstance(a, list) and isinstance(b, list):
             return a + b
@@ -505,6 +512,8 @@ def format_value(ctx, v, spec):
             return fmt_int(ctx, v, conv or 'd', width, fill)
     if conv in ('s', ''):
         s = to_str(ctx, v)
+        if isinstance(s, Choice):
+            s = resolve_choice(ctx, s)
         if width == 0:
             return s
         if isinstance(s, str):
@@ -559,6 +568,8 @@ def percent_format(ctx, fmt, args):
             out.append(fmt_int(ctx, a, conv, width, fill))
         elif conv == 's':
             s = to_str(ctx, a)
+            if isinstance(s, Choice):
+                s = resolve_choice(ctx, s)
             if width:
                 if isinstance(s, str):
                     s = s.rjust(width)
@@ -825,6 +836,8 @@ def str_join(ctx, sep, items):
     for it in items:
         if not (is_str(it) or isinstance(it, Choice)):
             raise_py(TypeError, "sequence item: expected str instance")
+        if isinstance(it, Choice):
+            it = resolve_choice(ctx, it)
         if not first:
             out.append(sep)
         out.append(it)
